@@ -106,7 +106,8 @@ class Face(ElementBase):
         """Reverses the order of points in this face."""
         self.points.reverse()
         self.edges.reverse()
-        self.edges = [self.edges[i] for i in (1, 2, 3, 0)]
+        # each edge now runs between the same two points but the other way round
+        self.edges = [self.edges[i].reversed() for i in (1, 2, 3, 0)]
 
         return self
 
